@@ -23,6 +23,15 @@ def width_family():
     fams.append(([{'move': None, 'body': ('elem', ('leaf', ('int', 1, False, None, 0)))},
                   {'move': None, 'body': ('elem', ('leaf', ('dsized', ('field', 0), 'field', b'')))},
                   {'move': None, 'body': ('elem', ('leaf', ('int', 3, False, None, 0)))}], None))
+    # long counted sequences of integers (a count of 8 and more invites "decode the whole run at once" shortcuts): every cut,
+    # those on element boundaries included, must fail
+    for w in (1, 2, 4, 3):
+        for n in (8, 11):
+            seqf = {'move': None, 'body': ('seq', ('leaf', ('int', w, False, None, 0)), (('field', 0), 'field'), None, None, None, None)}
+            fams.append(([{'move': None, 'body': ('elem', ('leaf', ('int', 1, False, None, 0)))}, seqf], None,
+                         bytes([n]) + bytes((53 * k + 7) % 256 for k in range(n * w))))
+        seqc = {'move': None, 'body': ('seq', ('leaf', ('int', w, False, None, 0)), (('lit', 9), 'const'), None, None, None, None)}
+        fams.append(([seqc, {'move': None, 'body': ('elem', ('leaf', ('int', 1, False, None, 0)))}], None, bytes((29 * k + 3) % 256 for k in range(9 * w + 1))))
     return fams
 
 
@@ -32,11 +41,15 @@ def run(tier, seed, rng):
     # ---- part 1: exhaustive truncation of single-field classes, generated and generic code
     groups, meta = [], []
     gid = 0
-    for fields, size in width_family():
+    for fam in width_family():
+        fields, size = fam[0], fam[1]
         for gen_on in (True, False):
             pc = dict(end=None, align=None, sbl=None, gp=gen_on, gu=gen_on, vec=True, ann=True, fields=fields)
             G = pktcases.Group({0: pc}, gid)
-            if size is None:
+            if len(fam) > 2:
+                full = fam[2]
+                need = len(full)
+            elif size is None:
                 full = bytes([2, 65, 66, 1, 2, 3])
                 need = len(full)
             else:
